@@ -60,6 +60,9 @@ CLAIMED = {
 	'C16': ('other', 'structural check of the span plumbing (field provenance of EntryOfLark.source_map, pass-through of Node/Nodes.source_map) and linear normal forms of the quotation arithmetic in ErrorRender and the engine ErrorCollector',
 		'Decides only the finite, shape-visible clauses every reported span passes through: EntryOfLark.source_map files line/column/end_line/end_column of ONE object as begin/end; Node.source_map is the span of the entry at the node path, unchanged; the error quotation shifts all four components by -1, quotes the begin line, marks columns [begin, end) on single-line spans and to the end of the line otherwise with at least one caret, and replaces a tab by exactly one character; the engine ErrorCollector reports begin_line + 1, quotes lines[begin_line] and uses the same range rule. The spans themselves (tokens of the slice == tokens of the node, child inside parent) are run-time numbers of the third-party parser and are NOT decided.',
 		'lark reports 1-based positions with exclusive end column; restoration from the cache is the position-provenance clause of C15', 'DESIGN.md §4 C16'),
+	'C18': ('other', 'structural check of the bracket scanners of BlockParser: pair table, guard of the closer stack, skip-before-test ordering in every scanning loop',
+		'Decides one necessary condition of "cuts only at delimiters outside all brackets and string quotes": text between quotes is opaque to every scanner. The pair table lists the four bracket kinds and both quote characters; _skip_other_block changes its closer stack, while a quote is on top, only for that quote; _analyze_entry, break_separator and break_last_block hand foreign openers (a set containing both quote characters) to _skip_other_block before they test for the requested brackets or the delimiter. The input/output laws themselves (rejoin, balance, last group, decorator and parameter reassembly) are relations over all strings and are NOT decided.',
+		'escaped quotes inside literals are not modelled (neither by the scanners nor here)', 'DESIGN.md §4 C18'),
 	'C12': ('translation_validation', 'translation validation of shipped grammar/rule-module pairs by an independent meta-grammar reader (ast + hand-written parser)',
 		'Every rule of data/syntax/gram.lark and py_gram.lark is compared node-by-node with the tuple tree checked in as gram_rules.py / py_rules.py; exhaustive over the 83 shipped rules. Decides the two fixed-point obligations of the property on the artifacts; says nothing about generated grammars.',
 		'trusts CPython ast.literal_eval and the 150-line reader vlib/metagram.py, which is itself validated by the gram.lark == gram_rules.py fixed point', 'DESIGN.md §4 C12'),
@@ -85,7 +88,6 @@ EXTRA = {
 }
 
 NOT_APPLICABLE = {
-	'C18': 'the splitting helpers are character-level scanners; every law in the statement is an input/output relation over all strings, and a static re-specification of the scanner would be a proxy that fires on behaviour-preserving rewrites',
 }
 
 
